@@ -664,7 +664,8 @@ def do_check(prop, tier):
                     harness_errors.append((dict(seed=None, status="tsan report in harness frames only"), ch["stderr"][-3000:]))
                 else:
                     # attribute to the run: single-run chunks carry their seed in the RESULT line; otherwise re-run singly later
-                    seed_of = got[-1]["seed"] if got else None
+                    bad = [r for r in got if r.get("status") not in ("ok", "violation")]
+                    seed_of = (bad[0] if bad else got[-1]).get("seed") if got else None
                     candidates.append(dict(seed=seed_of, status="violation", _flavour=ch["flavour"], _san_class=san[1],
                                            _chunk=(ch["lo"], ch["hi"]), _stderr=ch["stderr"][-4000:]))
             elif len(got) < expected or ch["rc"] not in (0, 1):
